@@ -94,10 +94,26 @@ def run(db, rep, feat, tier):
     tm = terms_of(db, TFE, {})
     where = lambda i: db.where(body, body["blocks"][i]["t"].get("l"))
 
-    fa = local_of(body, "function_address")
-    maps = {nm: tm.local(local_of(body, nm)) for nm in ("translation_results", "instruction_indices", "block_indices", "translation_queue")
-            if local_of(body, nm) is not None}
-    rep.anchor(fa is not None and len(maps) == 4, "locals function_address, translation_results, instruction_indices, block_indices, translation_queue")
+    # the objects of the function are identified by how they are used, not by their names:
+    #   function address = the u64 parameter (self, memory, address, options); work list = receiver of pop_front;
+    #   result map = receiver of contains_key; per-address map = receiver of BTreeMap::entry; per-block map = the other map
+    #   that receives (usize, usize) pairs
+    u64_params = [i for i in range(1, body["argc"] + 1) if body["types"][body["locals"][i]] == "u64"]
+    fa = u64_params[0] if len(u64_params) == 1 else local_of(body, "function_address")
+    maps = {}
+    for i, t in mir_calls(body):
+        c = mir_callee(t) or ""
+        if c.endswith("VecDeque::<T, A>::pop_front"):
+            maps["translation_queue"] = tm.operand(t["args"][0])
+        elif c.endswith("BTreeMap::<K, V, A>::contains_key"):
+            maps["translation_results"] = tm.operand(t["args"][0])
+        elif c.endswith("BTreeMap::<K, V, A>::entry"):
+            maps["instruction_indices"] = tm.operand(t["args"][0])
+    for i, t in mir_calls(body):
+        if (mir_callee(t) or "").endswith("BTreeMap::<K, V, A>::insert") and "(usize, usize)" in (t.get("fg") or "") and \
+                tm.operand(t["args"][0]) != maps.get("instruction_indices"):
+            maps["block_indices"] = tm.operand(t["args"][0])
+    rep.anchor(fa is not None and len(maps) == 4, "function address parameter, work list, result map, per-address map, per-block map")
     is_fa = lambda t: uses(t, lambda k: k == ("param", fa))
     recv = lambda t, nm: tm.operand(t["args"][0]) == maps[nm]
 
@@ -189,10 +205,12 @@ def run(db, rep, feat, tier):
                  "instruction's exit and this instruction's entry is reachable before the next instruction is fetched")
     inner_next = [i for i, t in calls(body, "Iterator>::next") if from_call(tm.operand(t["args"][0]), "BlockTranslationResult::instructions")]
     rep.anchor(len(inner_next) == 1, "instruction loop")
-    pe = local_of(body, "previous_exit")
-    pet = tm.local(pe) if pe is not None else None
+    # stitching edges are the edge calls whose endpoints are not taken from the per-block map (those are inter-block edges, R9)
+    bi_ = maps["block_indices"]
+    is_bi = lambda a: any(isinstance(x, tuple) and x and x[0] == "call" and str(x[1]).endswith("ops::Index<&Q>>::index") and x[2] and x[2][0] == bi_
+                          for x in subterms(a))
     edge_calls = [i for i, t in mir_calls(body) if (mir_callee(t) or "") in (CFGT + "::edge", CFGT + "::unconditional_edge")
-                  and pet is not None and any(x == pet for x in subterms(tm.operand(t["args"][1])))]
+                  and not is_bi(tm.operand(t["args"][1])) and not is_bi(tm.operand(t["args"][2]))]
     for nm, start in (("vacant", vac[0][0] if vac else None), ("occupied", occ[0][0] if occ else None)):
         if start is None:
             r.bad("stitch|%s" % nm, db.where(body), "arm not found")
@@ -358,8 +376,14 @@ def run(db, rep, feat, tier):
         fn = lifters.TB[arch]
         b = db.mir[fn]
         btm = terms_of(db, fn, {})
-        sl, al = local_of(b, "successors"), local_of(b, "address")
-        rep.anchor(sl is not None and al is not None, "%s: locals successors, address" % fn)
+        u64p = [i for i in range(1, b["argc"] + 1) if b["types"][b["locals"][i]] == "u64"]
+        al = u64p[0] if len(u64p) == 1 else local_of(b, "address")
+        sl = None
+        for li, ty in enumerate(b["locals"]):
+            if "Vec<(u64, std::option::Option<il::expression::Expression>)>" in b["types"][ty] and not b["types"][ty].startswith("&"):
+                if sl is None and li > b["argc"]:
+                    sl = li
+        rep.anchor(sl is not None and al is not None, "%s: successor list and load address" % fn)
         st = btm.local(sl)
         found = False
         for i, t in mir_calls(b):
